@@ -108,9 +108,12 @@ func siblingSwitch(c *mon.Ctx) {
 				}
 				phase = 2
 			case 2: // A (and what was built on it) is removed, a sibling A' takes its place
-				toDelete := int(g.n.Tip().Header.Height - heightA + 1)
-				if r.Intn(3) == 0 {
-					toDelete++
+				toDelete := 0
+				if th := g.n.Tip().Header.Height; th >= heightA {
+					toDelete = int(th-heightA) + 1
+					if r.Intn(3) == 0 {
+						toDelete++
+					}
 				}
 				for i := 0; i < toDelete && g.n.Tip().Header.Height > g.n.Finalized() && g.n.Tip().Header.Height > 0; i++ {
 					if g.n.DeleteTip(false) != nil {
